@@ -7,8 +7,10 @@ Monitors (the property itself on what the implementation did, independent of the
   M2  record -> re-parse (what retry and restart do) gives back exactly the parameter values of the first run;
   M3  every consumer (distance 1, 2, exit handler, step of a retry run) sees TrimSpace(stdout) of the producer, and the
       producer does finish.
-Known findings (narrow classes): F11a record-unquoted, F11b quoted-edge-escape, F11c unnamed-quoted-eq,
-F12c output-exceeds-pipe, F11d output-captures-stderr.
+Model and check describe the REPAIRED code (ff6cf28 F11c, 0f1faec F11b, f5eca82 F12c).  Known findings that remain (narrow
+classes): F11a record-unquoted, quoted-trailing-backslash (what is left of F11b), F11d output-captures-stderr,
+output-exceeds-exec-string (a captured value longer than execve takes in one environment string: every later step fails
+to start).
 """
 import base64
 import json
@@ -33,7 +35,7 @@ def word_ok(v):
 
 
 def name_ok(n):
-    return len(n) > 0 and all(c not in RE2_WS and c != 61 for c in n)
+    return len(n) > 0 and all(c not in RE2_WS and c != 61 and c != 34 for c in n)
 
 
 def no_inner_eq(v):
@@ -41,16 +43,7 @@ def no_inner_eq(v):
 
 
 def qval_ok(v):
-    return not v.endswith(b'"') and not v.endswith(b"\\")
-
-
-def head_ok(v):
-    for i, c in enumerate(v):
-        if c in RE2_WS:
-            return True
-        if c == 61:
-            return i + 1 < len(v) and v[i + 1] in RE2_WS
-    return True
+    return not v.endswith(b"\\")
 
 
 def item_class(it):
@@ -63,9 +56,7 @@ def item_class(it):
             return "not-a-word"
         return None
     if not qval_ok(v):
-        return "quoted-edge-escape"
-    if k == "q" and not head_ok(v):
-        return "unnamed-quoted-eq"
+        return "quoted-trailing-backslash"
     return None
 
 
@@ -164,12 +155,25 @@ def unb64(x):
 def monitor(c):
     """Returns None or (what, cls)."""
     st = c["stream"]
+    if st == "subst":
+        return monitor_subst(c)
+    if st == "cli":
+        items = c["items"]
+        classes = [item_class(it) for it in items]
+        bad = sorted([x for x in classes if x], key=lambda x: 0 if x == "quoted-trailing-backslash" else 1)
+        cls0 = {"class": (bad[0] if bad else "v0"), "stream": "cli"}
+        if c.get("hang"):
+            return ("`start -p` with the wrapped parameter string did not come back", cls0)
+        r = seen_mismatch(c, items, "")
+        if r:
+            return ("start -p \"%s\": %s" % (c["s"], r), cls0)
+        return None
     if st in ("doc", "env", "loop"):
         items = c["items"]
         classes = [item_class(it) for it in items]
         bad = [x for x in classes if x]
         # a dangling escape swallows what follows it, whatever that is: it takes precedence
-        bad.sort(key=lambda x: 0 if x == "quoted-edge-escape" else 1)
+        bad.sort(key=lambda x: 0 if x == "quoted-trailing-backslash" else 1)
         cls0 = {"class": bad[0] if bad else "v0", "stream": "params"}
         if c.get("err"):
             return ("loading the documented parameter string failed: %s" % c["err"], cls0)
@@ -196,8 +200,7 @@ def monitor(c):
         ob = out_bytes(c)
         has_err = bool(c.get("err_b64"))
         if c.get("hang"):
-            return ("a step with `output:` that prints %d bytes never finishes" % len(ob),
-                    {"class": "output-exceeds-pipe" if len(ob) > 65536 else "output-hang", "stream": "out"})
+            return ("a step with `output:` that prints %d bytes never finishes" % len(ob), {"class": "output-hang", "stream": "out"})
         if c.get("err"):
             return ("output run failed: %s" % c["err"], {"class": "output-run", "stream": "out"})
         exp = go_trim(ob)
@@ -207,15 +210,18 @@ def monitor(c):
             if ent != {"OUT": b"OUT=" + exp}:
                 return ("the recorded output map is %r, expected one entry OUT -> OUT=TrimSpace(stdout)" % {k: _short(v) for k, v in ent.items()},
                         {"class": "output-record", "stream": "out"})
-        for name in ("d1", "d1arg", "d2", "handler", "retry"):
+        for name in ("d1", "d1arg", "d2", "handler", "retry", "retryarg"):
             p = (c.get("probes") or {}).get(name)
             if p is None:
+                if len(exp) > EXEC_STR:
+                    return ("after capturing %d bytes consumer %s cannot be started (execve: argument list too long)" % (len(exp), name),
+                            {"class": "output-exceeds-exec-string", "stream": "out"})
                 return ("consumer %s did not run" % name, {"class": "output-consumer-missing", "stream": "out"})
-            if name == "d1arg":
+            if name in ("d1arg", "retryarg"):
                 got = unb64(p["args"][0]) if p.get("args") else None
             else:
                 got = unb64((p.get("env") or {}).get("OUT"))
-            if name == "retry" and not is_utf8(ob):
+            if name in ("retry", "retryarg") and not is_utf8(ob):
                 continue  # the status file is JSON: invalid UTF-8 cannot be recorded (DESIGN Appendix B) - not judged
             if got != exp:
                 cl = "output-value"
@@ -223,6 +229,42 @@ def monitor(c):
                     cl = "output-captures-stderr"
                 return ("consumer %s sees %r, TrimSpace(stdout) = %r" % (name, _short(got), _short(exp)), {"class": cl, "stream": "out"})
         return None
+    return None
+
+
+EXEC_STR = 131067    # longest value execve takes in OUT=value (MAX_ARG_STRLEN 131072 incl. name, = and NUL)
+VAR1, VAR2 = "alpha", "beta"
+
+
+def subst(v, val):
+    return v.replace("${C11VAR}", val).replace("$C11VAR", val)
+
+
+def monitor_subst(c):
+    """The run sees the parameters with $C11VAR = alpha; what is recorded must hold those values: a retry / restart
+    in a process where the variable is beta has to come out with the same parameters."""
+    items = [dict(it, value=subst(it["value"], VAR1)) for it in c["items"]]
+    classes = [item_class(it) for it in c["items"]]
+    bad = [x for x in classes if x]
+    cls0 = {"class": bad[0] if bad else "v0", "stream": "subst"}
+    if c.get("err") and not c["err"].startswith("reload"):
+        return ("loading failed: %s" % c["err"], cls0)
+    exp = [stringify(it) for it in items]
+    if c["params"] != exp:
+        return ("parameters with $C11VAR=alpha: expected %r, DAG.Params = %r" % (exp, c["params"]), cls0)
+    r = seen_mismatch(c, items, "")
+    if r:
+        return (r, cls0)
+    ok1 = all(v1_pair(b(it.get("name", "")), b(it["value"])) for it in items)
+    cls1 = {"class": "recorded-values" if ok1 else "record-unquoted", "stream": "subst" if ok1 else "params"}
+    if c.get("err"):
+        return ("re-load of the recorded string failed: %s" % c["err"], cls1)
+    if c.get("params2") != c["params"]:
+        return ("the recorded parameters %r are re-used as %r in a process where $C11VAR=beta; the run saw %r"
+                % (c.get("recorded"), c.get("params2"), c["params"]), cls1)
+    r = seen_mismatch(c, items, "re-")
+    if r:
+        return ("after record -> re-load with $C11VAR=beta: " + r, cls1)
     return None
 
 
@@ -308,7 +350,7 @@ def model_check(ctx, cases):
             bad.append((c, "model tokenizer and implementation disagree on %r: implementation %r" % (s, ps)))
     # 2. doc_render, V0, record, V1, TrimSpace, output entry
     dc = [c for c in cases if c["stream"] in ("doc", "env", "loop")]
-    rc = [c for c in cases if c["stream"] in ("env", "loop") and not c.get("err") and not c.get("hang")]
+    rc = [c for c in cases if c["stream"] in ("env", "loop", "subst") and not c.get("err") and not c.get("hang")]
     lc = [c for c in cases if c["stream"] == "loop"]
     tc = [c for c in cases if c["stream"] == "out" and c.get("gen") != "size" and c.get("go_trim_b64") is not None]
     oc = []
@@ -366,7 +408,7 @@ def candidates(c):
         s = c["s"]
         for i in range(len(s)):
             out.append(dict(base, s=s[:i] + s[i + 1:]))
-    elif c["stream"] in ("doc", "env", "loop"):
+    elif c["stream"] in ("doc", "env", "loop", "subst", "cli"):
         its = c["items"]
         for i in range(len(its)):
             if len(its) > 1:
@@ -405,7 +447,7 @@ def slim(c):
 def nontrivial(c):
     if c["stream"] == "parse":
         return any(ch in c["s"] for ch in '"=` \\')
-    if c["stream"] in ("doc", "env", "loop"):
+    if c["stream"] in ("doc", "env", "loop", "subst", "cli"):
         return any(it["kind"] != "w" or "=" in it["value"] for it in c["items"])
     return len(out_bytes(c)) > 0
 
@@ -413,7 +455,7 @@ def nontrivial(c):
 def key(c):
     if c["stream"] == "parse":
         return ("p", c["s"])
-    if c["stream"] in ("doc", "env", "loop"):
+    if c["stream"] in ("doc", "env", "loop", "subst", "cli"):
         return (c["stream"], json.dumps(c["items"], sort_keys=True))
     return ("o", c.get("gen"), c.get("size"), c.get("out_b64"), c.get("err_b64"))
 
@@ -471,14 +513,14 @@ def run(ctx, replay_cases=None):
             k = next((x for x in cl if x), "V0")
             classes[k] = classes.get(k, 0) + 1
     ctx.cov["evaluations"] = len(cases)
-    ctx.cov["traces_validated_against_impl"] = sum(1 for c in cases if c["stream"] in ("env", "loop", "out"))
+    ctx.cov["traces_validated_against_impl"] = sum(1 for c in cases if c["stream"] in ("env", "loop", "out", "subst", "cli"))
     ctx.cov["distinct_nontrivial"] = len(seen)
     ctx.cov["rule"] = ("distinct = distinct input (parameter string / item list / output bytes); non-trivial = a parameter string "
                        "containing a quote, =, back-tick, backslash or space; an item list with a quoted or named item; a non-empty output")
     ctx.cov["streams"] = streams
     ctx.cov["item_lists_by_class"] = classes
-    # how tight V0 is: item lists outside V0 that the implementation nevertheless parses to their values (all of
-    # them context dependent: a trailing backslash / a trailing = in the LAST quoted item, no quote after it)
+    # how tight V0 is: item lists outside V0 that the implementation nevertheless parses to their values (context
+    # dependent: a trailing backslash in the LAST quoted item, no quote after it)
     ctx.cov["outside_V0_yet_correct"] = sum(
         1 for c in cases if c["stream"] == "doc" and not c.get("err")
         and any(item_class(it) for it in c["items"]) and c["params"] == [stringify(it) for it in c["items"]])
@@ -493,7 +535,7 @@ def run(ctx, replay_cases=None):
         "eval-time substitution ($VAR expansion, back-tick commands) is outside the model: env/loop cases avoid $ and back-tick",
         "the process environment (execve, os.Setenv, exec.Cmd env de-duplication) is observed through real children, not modelled",
     ]
-    ctx.assumptions = ["C11_parse_doc: items in V0 (decidable; exactly the complement of the F11b/F11c classes and of text that is not a word)",
+    ctx.assumptions = ["C11_parse_doc_partial: items in V0 (decidable: quoted text is arbitrary except a final backslash; words / names as documented)",
                        "C11_roundtrip: parsed pairs in V1 (no white space, no quote, non-empty, no leading back-tick, positional without inner =)",
                        "C11_output: no other producer of the same variable name between producer and consumer"]
     if ctx.tier == "thorough":
